@@ -1041,3 +1041,78 @@ def no_buffer_release_check(ch: Any, rule: str) -> int:
     if n == 0:
         ch.ok(rule, None, 'memoryview.release() on queued data', 'no connection class releases queued views (matcher verified on a built-in example)', module_rel='proxy/core/connection/')
     return n
+
+
+def sweep_period_check(ch: Any, rule: str) -> None:
+    """the shared loop looks for idle connections every `cleanup_inactive_timeout` seconds (the per-connection thread looks every
+    select round): that period is the bound on how long after `--timeout` an idle connection survives in the shared-loop modes, so it
+    is a positive constant below the default timeout it enforces"""
+    from ..consteval import ConstEval
+    from ..model import AnalysisError
+    prog = ch.prog
+    ce = ConstEval(prog)
+    tl = prog.class_named('Threadless')
+    init = prog.lookup_method(tl, '__init__')
+    rf = prog.lookup_method(tl, '_run_forever')
+    if init is None or rf is None:
+        raise AnalysisError('anchor vanished: Threadless.__init__ / _run_forever')
+    stores = [s_ for s_ in walk_no_nested(init.node) if isinstance(s_, (ast.Assign, ast.AnnAssign)) and attr_chain(s_.targets[0] if isinstance(s_, ast.Assign) else s_.target) == 'self.cleanup_inactive_timeout']
+    used = any(isinstance(x, ast.Attribute) and attr_chain(x) == 'self.cleanup_inactive_timeout' for x in ast.walk(rf.node))
+    if len(stores) != 1 or not used or stores[0].value is None:
+        raise AnalysisError('anchor vanished: the idle sweep of the shared loop is no longer paced by self.cleanup_inactive_timeout')
+    period = ce.try_eval(init.module, stores[0].value)
+    cm = prog.modules.get('proxy.common.constants')
+    timeout = ce.try_eval(cm, ast.Name(id='DEFAULT_TIMEOUT', ctx=ast.Load())) if cm is not None else None
+    ok = isinstance(period, (int, float)) and not isinstance(period, bool) and isinstance(timeout, (int, float)) and 0 < period < timeout
+    ch.check(ok, rule, init, 'period of the idle sweep', 'the shared loop sweeps idle connections every %r s, below the default timeout of %r s' % (period, timeout),
+             'the shared loop looks for idle connections every %r s while the default timeout is %r s: a connection idle for longer than --timeout is still served for up to that long in the '
+             'shared-loop modes (and closed at once by the per-connection thread, which tests is_inactive() every select round) -- the period must be a positive constant below the timeout it enforces'
+             % (period, timeout))
+
+
+def plugin_load_check(ch: Any, rule: str) -> None:
+    """Plugins.load: every class the importer returns ends up in the list of its base class; the only reason not to append it is that this
+    very class object is in the list already (`klass in <list>`), never a comparison of names -- two plugins may share a class name"""
+    import re
+    from ..flow import Sym
+    prog = ch.prog
+    pl = prog.class_named('Plugins')
+    ld = prog.lookup_method(pl, 'load')
+    if ld is None:
+        from ..model import AnalysisError as AnalysisError_
+        raise AnalysisError_('anchor vanished: Plugins.load')
+    g = cfg_of(ld, prog, exc_edges=False)
+    bad = None
+    n_app = 0
+    for p in fpaths(g, limit=100000):
+        if p.exit_kind != 'return':
+            continue
+        sym = Sym(p)
+        imp = [(i, st) for i, st in p.stmts() if isinstance(st, ast.Assign) and any(isinstance(c, ast.Call) and (attr_chain(c.func) or '').endswith('importer') for c in walk_no_nested(st))]
+        if not imp:
+            continue
+        i0, st0 = imp[-1]
+        tg = st0.targets[0]
+        kname = tg.elts[0].id if isinstance(tg, ast.Tuple) and tg.elts and isinstance(tg.elts[0], ast.Name) else (tg.id if isinstance(tg, ast.Name) else None)
+        if kname is None:
+            continue
+        appends = [(i, c) for i, st in p.stmts() if i > i0 for c in walk_no_nested(st) if isinstance(c, ast.Call) and isinstance(c.func, ast.Attribute) and c.func.attr in ('append', 'add', 'insert')
+                   and c.args and isinstance(sym.value(c.args[-1], i), ast.AST) and re.search(r'\b%s\b' % re.escape(kname), norm(c.args[-1]))]
+        at = appends[0][0] if appends else len(p.steps)
+        facts = allfacts(p, at)
+        for a, pol in facts.items():
+            if not re.search(r'\b%s\b' % re.escape(kname), a):
+                continue
+            a2 = a.replace(' ', '')
+            if a2 == kname or a2.startswith(kname + 'in'):
+                continue
+            if re.search(r'\b%s\.__(qual)?name__' % re.escape(kname), a) or '.__name__' in a or '.__qualname__' in a:
+                bad = ('whether an imported plugin class is kept depends on `%s`: a comparison of class NAMES -- two plugin classes from different modules that share a name (acme.Routes, globex.Routes) '
+                       'collapse into the first one listed, the hooks / routes of the other are never registered' % a[:90], p.describe(16))
+        member = [pol for a, pol in facts.items() if a.replace(' ', '').startswith(kname + 'in')]
+        if appends:
+            n_app += 1
+        elif not any(pol is True for pol in member):
+            bad = bad or ('an imported plugin class is not entered into the table on a path where it is not known to be there already', p.describe(16))
+    ch.check(bad is None and n_app > 0, rule, ld, 'every imported class is kept', 'an imported class is appended unless that very class object is already listed (%d appending path(s))' % n_app,
+             bad[0] if bad else 'Plugins.load never appends the imported class', witness=bad[1] if bad else None)
